@@ -56,6 +56,14 @@ const RECV_TIMEOUT: Duration = Duration::from_secs(8);
 async fn send_all<S: zlink_core::connection::Socket>(w: &mut zlink_core::connection::WriteConnection<S::WriteHalf>, sizes: &[usize]) {
     for (i, &n) in sizes.iter().enumerate() {
         let c = Call::new(M::Blob { i: i as u32, data: payload(n, i) });
+        // every third message, if it is small and not the last, is only enqueued: it goes out with the next send, in
+        // front of it (pipelining; the next message may be far larger than the write buffer)
+        if i % 3 == 1 && n < 2000 && i + 1 < sizes.len() {
+            if w.enqueue_call(&c).is_err() {
+                break;
+            }
+            continue;
+        }
         if w.send_call(&c).await.is_err() {
             break;
         }
